@@ -32,10 +32,10 @@ ASSUMPTIONS = [
 PRE = "Open Scope string_scope."
 MODS = ["good", "bad", "missing", "syn", "nest"]
 W_NAMES = ["top", "nested1", "nested2", "nested3", "fiber", "try_finally", "catch", "finally", "finally_ret", "classdef",
-           "classdef_nested", "capture", "builtin_in_try"]
+           "classdef_nested", "capture", "builtin_in_try", "capture_in_caller_fiber"]
 # families: which later constructs are "of the same kind" as a failing one
 FAM_OF_W = {0: "call", 1: "call", 2: "call", 3: "call", 4: "fiber", 5: "try", 6: "try", 7: "try", 8: "try", 9: "class",
-            10: "class", 11: "capture", 12: "try"}
+            10: "class", 11: "capture", 12: "try", 13: "capture"}
 
 
 def z(n):
@@ -67,7 +67,7 @@ def all_snippets():
     for c in (0, 1):
         res += [sn_class(c, 7), sn_use(c)]
     res += [sn_syntax(False), sn_syntax(True)]
-    for w in range(13):
+    for w in range(14):
         res += [sn_throw(w), sn_throw(w, (0, 9))]
     res += [SN_TRYFIN, SN_TRYCATCH, SN_FIBEROK, SN_CAPOK, SN_USELEAK, sn_range(1), sn_range(2), sn_range(3)]
     for m in range(5):
@@ -103,7 +103,7 @@ def same_kind(fam, s):
     if fam == "fiber":
         return s == SN_FIBEROK or (s[0] == 7 and s[1] == 4)
     if fam == "capture":
-        return s in (SN_USELEAK, SN_CAPOK) or (s[0] == 7 and s[1] == 11)
+        return s in (SN_USELEAK, SN_CAPOK) or (s[0] == 7 and s[1] in (11, 13))
     if fam == "syntax":
         return s[0] == 6
     return False
@@ -136,9 +136,9 @@ def gen_history(rng, pool, maxlen=8):
             h.append(rng.choice([sn_import(rng.randint(0, 4)), sn_usemod(rng.randint(0, 4)), rng.choice(uses), SN_RESET, rng.choice(pool)]))
         return h
     if style == "leak":
-        h = [rng.choice(defs), sn_throw(11, rng.choice([None, (0, 4)]))]
+        h = [rng.choice(defs), sn_throw(rng.choice([11, 13, 13]), rng.choice([None, (0, 4)]))]
         while len(h) < n:
-            h.append(rng.choice([SN_USELEAK, SN_CAPOK, sn_throw(11), rng.choice(uses), SN_RESET, rng.choice(pool), sn_range(2)]))
+            h.append(rng.choice([SN_USELEAK, SN_USELEAK, SN_CAPOK, sn_throw(11), sn_throw(13), rng.choice(uses), SN_RESET, rng.choice(pool), sn_range(2)]))
         return h
     if style == "reset":
         h = [rng.choice(pool) for _ in range(rng.randint(1, 4))] + [SN_RESET]
@@ -353,7 +353,7 @@ def completed_definitions(s):
         parts = []
         if len(s) == 4:
             parts.append("var g%d = %d;" % (s[2], s[3] - 100))
-        if s[1] == 11:
+        if s[1] in (11, 13):
             parts.append(CAPTURE_DEF_41)
         return " ".join(parts) or None
     return None
@@ -664,7 +664,7 @@ def run(ctx):
     ctx.cov.update({
         "evaluations": len(hists) * 2 + meta + fresh + ref,
         "distinct_nontrivial": len(nontriv),
-        "rule": "histories of <= 9 snippets of the mini-language ReplLang.v (definitions, uses, compile errors, uncaught errors from 13 places, "
+        "rule": "histories of <= 9 snippets of the mini-language ReplLang.v (definitions, uses, compile errors, uncaught errors from 14 places, "
                 "try/finally and fibers that complete, imports of a good/throwing/missing/uncompilable/nested module, RESET): every "
                 "(failing snippet, any snippet) pair alone and after a block of definitions, plus random histories in 6 styles; each history "
                 "runs on ONE Vm in the debug and the release build. non-trivial = the history contains a snippet that fails ON THE "
